@@ -315,9 +315,10 @@ func tableCell(s *state, w []string) string {
 	for i, t := range w {
 		n[i], _ = strconv.Atoi(t)
 	}
-	if len(n) != 16 {
+	if len(n) != 15 {
 		return "bad-line"
 	}
+	n = append([]int{0}, n...)
 	fl := func(i int) goja.Flag {
 		switch i {
 		case 1:
